@@ -40,32 +40,40 @@ theorem setFlag_keep (ms : List (Str × Flags)) (k : Str) (g : Flags → Flags) 
     · subst hx; exact Or.inl ⟨rfl, f, hf, (hg f).mpr hp⟩
     · exact Or.inr ⟨hx, f, hf, hp⟩
 
+theorem Tracks.setFlag_keep {full : Prop} {S : List Str} {ms : List (Str × Flags)} {P : Flags → Prop}
+    (h : Tracks full S ms P) (k : Str) (g : Flags → Flags) (hg : ∀ f, P (g f) ↔ P f) : Tracks full S (setFlag ms k g) P where
+  sub := fun x hx => (C10.setFlag_keep ms k g P hg x).mpr (h.sub x hx)
+  sup := fun hfull x hex => h.sup hfull x ((C10.setFlag_keep ms k g P hg x).mp hex)
+
 /-- the getter the update sets to `add`, as a set operation on the nicks having it -/
-theorem setFlag_set (ms : List (Str × Flags)) (k : Str) (g : Flags → Flags) (P : Flags → Prop) (add : Bool)
-    (hg : ∀ f, P (g f) ↔ add = true) (hk : ∃ f, (k, f) ∈ ms) {S : List Str}
-    (hS : ∀ x, x ∈ S ↔ ∃ f, (x, f) ∈ ms ∧ P f) (x : Str) :
-    x ∈ (if add then sadd S k else sdel S k) ↔ ∃ f, (x, f) ∈ setFlag ms k g ∧ P f := by
-  rw [setFlag_get]
-  obtain ⟨f0, hf0⟩ := hk
-  cases add with
-  | true =>
-    simp only [↓reduceIte, mem_sadd, hS]
-    constructor
-    · rintro (rfl | ⟨f, hf, hp⟩)
+theorem Tracks.setFlag_set {full : Prop} {S : List Str} {ms : List (Str × Flags)} {P : Flags → Prop}
+    (h : Tracks full S ms P) (k : Str) (g : Flags → Flags) (add : Bool) (hg : ∀ f, P (g f) ↔ add = true)
+    (hk : ∃ f, (k, f) ∈ ms) : Tracks full (if add then sadd S k else sdel S k) (setFlag ms k g) P where
+  sub := fun x hx => by
+    rw [setFlag_get]
+    obtain ⟨f0, hf0⟩ := hk
+    cases add with
+    | true =>
+      simp only [↓reduceIte, mem_sadd] at hx
+      rcases hx with rfl | hx
       · exact Or.inl ⟨rfl, f0, hf0, (hg f0).mpr rfl⟩
-      · by_cases hx : x = k
-        · subst hx; exact Or.inl ⟨rfl, f0, hf0, (hg f0).mpr rfl⟩
-        · exact Or.inr ⟨hx, f, hf, hp⟩
-    · rintro (⟨rfl, _⟩ | ⟨_, f, hf, hp⟩)
-      · exact Or.inl rfl
-      · exact Or.inr ⟨f, hf, hp⟩
-  | false =>
-    simp only [Bool.false_eq_true, ↓reduceIte, mem_sdel, hS]
-    constructor
-    · rintro ⟨hx, f, hf, hp⟩; exact Or.inr ⟨hx, f, hf, hp⟩
-    · rintro (⟨rfl, f, _, hp⟩ | ⟨hx, f, hf, hp⟩)
-      · exact absurd ((hg f).mp hp) (by simp)
-      · exact ⟨hx, f, hf, hp⟩
+      · obtain ⟨f, hf, hp⟩ := h.sub x hx
+        by_cases hxk : x = k
+        · subst hxk; exact Or.inl ⟨rfl, f, hf, (hg f).mpr rfl⟩
+        · exact Or.inr ⟨hxk, f, hf, hp⟩
+    | false =>
+      simp only [Bool.false_eq_true, ↓reduceIte, mem_sdel] at hx
+      obtain ⟨f, hf, hp⟩ := h.sub x hx.2
+      exact Or.inr ⟨hx.1, f, hf, hp⟩
+  sup := fun hfull x hex => by
+    rcases (setFlag_get ms k g P x).mp hex with ⟨rfl, f, _, hp⟩ | ⟨hxk, f, hf, hp⟩
+    · have := (hg f).mp hp
+      subst this
+      simp
+    · have hxS := h.sup hfull x ⟨f, hf, hp⟩
+      cases add with
+      | true => simp only [↓reduceIte, mem_sadd]; exact Or.inr hxS
+      | false => simp only [Bool.false_eq_true, ↓reduceIte, mem_sdel]; exact ⟨hxk, hxS⟩
 
 theorem has_setFlag (sc : SChan) (k : Str) (g : Flags → Flags) (x : Str) :
     ({ sc with members := setFlag sc.members k g } : SChan).has x = sc.has x := by
@@ -106,71 +114,81 @@ theorem flag_not_tracked {c : Char} (h : isFlagMode c = true) : c ∉ Gen.tracke
   intro hm; exact flag_not_class h (tracked_in_class c hm)
 
 /-- the same flag update on both sides -/
-theorem matches_flag_o {sc : SChan} {ch : Chan} (hm : ChanMatches sc ch) (k : Str) (hk : sc.has k = true) (add : Bool) :
-    ChanMatches { sc with members := setFlag sc.members k (fun f => { f with o := add }) }
-      (setAt ch 0 (fun s => if add then sadd s k else sdel s k)) := by
-  have hk' := has_iff.mp hk
-  refine ⟨?_, ?_, ?_, ?_, hm.topic, hm.modes, hm.bans⟩
-  · intro x; simp only [setAt]; rw [hm.users]
-    have := setFlag_keep sc.members k (fun f => { f with o := add }) (fun _ => True) (fun _ => Iff.rfl) x
-    simpa using this.symm
-  · exact setFlag_set sc.members k (fun f => { f with o := add }) (fun f => f.o = true) add (fun f => by simp) hk' hm.ops
-  · intro x; simp only [setAt]; rw [hm.halfops]
-    exact (setFlag_keep sc.members k (fun f => { f with o := add }) (fun f => f.h = true) (fun _ => Iff.rfl) x).symm
-  · intro x; simp only [setAt]; rw [hm.voices]
-    exact (setFlag_keep sc.members k (fun f => { f with o := add }) (fun f => f.v = true) (fun _ => Iff.rfl) x).symm
+theorem matches_flag_o {mp ms bs : Bool} {sc : SChan} {ch : Chan} (hm : ChanMatches mp ms bs sc ch) (k : Str)
+    (hk : sc.has k = true) (add : Bool) :
+    ChanMatches mp ms bs { sc with members := setFlag sc.members k (fun f => { f with o := add }) }
+      (setAt ch 0 (fun s => if add then sadd s k else sdel s k)) :=
+  ⟨hm.users.setFlag_keep k (fun f => { f with o := add }) (fun _ => Iff.rfl),
+   hm.ops.setFlag_set k (fun f => { f with o := add }) add (fun f => by simp) (has_iff.mp hk),
+   hm.halfops.setFlag_keep k (fun f => { f with o := add }) (fun _ => Iff.rfl), hm.voices.setFlag_keep k (fun f => { f with o := add }) (fun _ => Iff.rfl),
+   hm.topic, hm.modes, hm.modesFull, hm.bans, hm.bansFull⟩
 
-theorem matches_flag_h {sc : SChan} {ch : Chan} (hm : ChanMatches sc ch) (k : Str) (hk : sc.has k = true) (add : Bool) :
-    ChanMatches { sc with members := setFlag sc.members k (fun f => { f with h := add }) }
-      (setAt ch 1 (fun s => if add then sadd s k else sdel s k)) := by
-  have hk' := has_iff.mp hk
-  refine ⟨?_, ?_, ?_, ?_, hm.topic, hm.modes, hm.bans⟩
-  · intro x; simp only [setAt]; rw [hm.users]
-    have := setFlag_keep sc.members k (fun f => { f with h := add }) (fun _ => True) (fun _ => Iff.rfl) x
-    simpa using this.symm
-  · intro x; simp only [setAt]; rw [hm.ops]
-    exact (setFlag_keep sc.members k (fun f => { f with h := add }) (fun f => f.o = true) (fun _ => Iff.rfl) x).symm
-  · exact setFlag_set sc.members k (fun f => { f with h := add }) (fun f => f.h = true) add (fun f => by simp) hk' hm.halfops
-  · intro x; simp only [setAt]; rw [hm.voices]
-    exact (setFlag_keep sc.members k (fun f => { f with h := add }) (fun f => f.v = true) (fun _ => Iff.rfl) x).symm
+theorem matches_flag_h {mp ms bs : Bool} {sc : SChan} {ch : Chan} (hm : ChanMatches mp ms bs sc ch) (k : Str)
+    (hk : sc.has k = true) (add : Bool) :
+    ChanMatches mp ms bs { sc with members := setFlag sc.members k (fun f => { f with h := add }) }
+      (setAt ch 1 (fun s => if add then sadd s k else sdel s k)) :=
+  ⟨hm.users.setFlag_keep k (fun f => { f with h := add }) (fun _ => Iff.rfl), hm.ops.setFlag_keep k (fun f => { f with h := add }) (fun _ => Iff.rfl),
+   hm.halfops.setFlag_set k (fun f => { f with h := add }) add (fun f => by simp) (has_iff.mp hk),
+   hm.voices.setFlag_keep k (fun f => { f with h := add }) (fun _ => Iff.rfl),
+   hm.topic, hm.modes, hm.modesFull, hm.bans, hm.bansFull⟩
 
-theorem matches_flag_v {sc : SChan} {ch : Chan} (hm : ChanMatches sc ch) (k : Str) (hk : sc.has k = true) (add : Bool) :
-    ChanMatches { sc with members := setFlag sc.members k (fun f => { f with v := add }) }
-      (setAt ch 2 (fun s => if add then sadd s k else sdel s k)) := by
-  have hk' := has_iff.mp hk
-  refine ⟨?_, ?_, ?_, ?_, hm.topic, hm.modes, hm.bans⟩
-  · intro x; simp only [setAt]; rw [hm.users]
-    have := setFlag_keep sc.members k (fun f => { f with v := add }) (fun _ => True) (fun _ => Iff.rfl) x
-    simpa using this.symm
-  · intro x; simp only [setAt]; rw [hm.ops]
-    exact (setFlag_keep sc.members k (fun f => { f with v := add }) (fun f => f.o = true) (fun _ => Iff.rfl) x).symm
-  · intro x; simp only [setAt]; rw [hm.halfops]
-    exact (setFlag_keep sc.members k (fun f => { f with v := add }) (fun f => f.h = true) (fun _ => Iff.rfl) x).symm
-  · exact setFlag_set sc.members k (fun f => { f with v := add }) (fun f => f.v = true) add (fun f => by simp) hk' hm.voices
+theorem matches_flag_v {mp ms bs : Bool} {sc : SChan} {ch : Chan} (hm : ChanMatches mp ms bs sc ch) (k : Str)
+    (hk : sc.has k = true) (add : Bool) :
+    ChanMatches mp ms bs { sc with members := setFlag sc.members k (fun f => { f with v := add }) }
+      (setAt ch 2 (fun s => if add then sadd s k else sdel s k)) :=
+  ⟨hm.users.setFlag_keep k (fun f => { f with v := add }) (fun _ => Iff.rfl), hm.ops.setFlag_keep k (fun f => { f with v := add }) (fun _ => Iff.rfl),
+   hm.halfops.setFlag_keep k (fun f => { f with v := add }) (fun _ => Iff.rfl),
+   hm.voices.setFlag_set k (fun f => { f with v := add }) add (fun f => by simp) (has_iff.mp hk),
+   hm.topic, hm.modes, hm.modesFull, hm.bans, hm.bansFull⟩
 
-theorem matches_modes_set {sc : SChan} {ch : Chan} (hm : ChanMatches sc ch) (c : Char) (v : Option Str) :
-    ChanMatches { sc with modes := aset sc.modes c v } { ch with modes := aset ch.modes c v } :=
-  ⟨hm.users, hm.ops, hm.halfops, hm.voices, hm.topic, fun m => by simp only [aget_aset, hm.modes], hm.bans⟩
+theorem matches_modes_set {mp ms bs : Bool} {sc : SChan} {ch : Chan} (hm : ChanMatches mp ms bs sc ch) (c : Char) (v : Option Str) :
+    ChanMatches mp ms bs { sc with modes := aset sc.modes c v } { ch with modes := aset ch.modes c v } :=
+  ⟨hm.users, hm.ops, hm.halfops, hm.voices, hm.topic,
+   fun m => by
+     simp only [aget_aset]
+     by_cases h : c = m
+     · simp [h]
+     · simp only [h, ↓reduceIte]; exact hm.modes m,
+   fun hs m => by simp only [aget_aset, hm.modesFull hs], hm.bans, hm.bansFull⟩
 
-theorem matches_modes_del {sc : SChan} {ch : Chan} (hm : ChanMatches sc ch) (c : Char) :
-    ChanMatches { sc with modes := adel sc.modes c } { ch with modes := adel ch.modes c } :=
-  ⟨hm.users, hm.ops, hm.halfops, hm.voices, hm.topic, fun m => by simp only [aget_adel, hm.modes], hm.bans⟩
+theorem matches_modes_del {mp ms bs : Bool} {sc : SChan} {ch : Chan} (hm : ChanMatches mp ms bs sc ch) (c : Char) :
+    ChanMatches mp ms bs { sc with modes := adel sc.modes c } { ch with modes := adel ch.modes c } :=
+  ⟨hm.users, hm.ops, hm.halfops, hm.voices, hm.topic,
+   fun m => by
+     simp only [aget_adel]
+     by_cases h : c = m
+     · simp [h]
+     · simp only [h, ↓reduceIte]; exact hm.modes m,
+   fun hs m => by simp only [aget_adel, hm.modesFull hs], hm.bans, hm.bansFull⟩
 
-theorem matches_ban_add {sc : SChan} {ch : Chan} (hm : ChanMatches sc ch) (a : Str) :
-    ChanMatches { sc with bans := sc.bans ++ [a] } (setAt ch 3 (fun s => sadd s (lower a))) := by
-  refine ⟨hm.users, hm.ops, hm.halfops, hm.voices, hm.topic, hm.modes, ?_⟩
-  intro x
-  simp only [setAt, mem_sadd, hm.bans, List.map_append, List.map_cons, List.map_nil, List.mem_append, List.mem_singleton]
-  exact or_comm
+theorem matches_ban_add {mp ms bs : Bool} {sc : SChan} {ch : Chan} (hm : ChanMatches mp ms bs sc ch) (a : Str) :
+    ChanMatches mp ms bs { sc with bans := sc.bans ++ [a] } (setAt ch 3 (fun s => sadd s (lower a))) := by
+  refine ⟨hm.users, hm.ops, hm.halfops, hm.voices, hm.topic, hm.modes, hm.modesFull, ?_, ?_⟩
+  · intro x hx
+    simp only [setAt, mem_sadd] at hx
+    simp only [List.map_append, List.map_cons, List.map_nil, List.mem_append, List.mem_singleton]
+    rcases hx with rfl | hx
+    · exact Or.inr rfl
+    · exact Or.inl (hm.bans x hx)
+  · intro hs x hx
+    simp only [List.map_append, List.map_cons, List.map_nil, List.mem_append, List.mem_singleton] at hx
+    simp only [setAt, mem_sadd]
+    rcases hx with hx | rfl
+    · exact Or.inr (hm.bansFull hs x hx)
+    · exact Or.inl rfl
 
-theorem matches_ban_del {sc : SChan} {ch : Chan} (hm : ChanMatches sc ch) (a : Str) :
-    ChanMatches { sc with bans := sc.bans.filter (fun m => lower m != lower a) } (setAt ch 3 (fun s => sdel s (lower a))) := by
-  refine ⟨hm.users, hm.ops, hm.halfops, hm.voices, hm.topic, hm.modes, ?_⟩
-  intro x
-  simp only [setAt, mem_sdel, hm.bans, List.mem_map, List.mem_filter, bne_iff_ne, ne_eq]
-  constructor
-  · rintro ⟨hx, m, hm', rfl⟩; exact ⟨m, ⟨hm', hx⟩, rfl⟩
-  · rintro ⟨m, ⟨hm', hx⟩, rfl⟩; exact ⟨hx, m, hm', rfl⟩
+theorem matches_ban_del {mp ms bs : Bool} {sc : SChan} {ch : Chan} (hm : ChanMatches mp ms bs sc ch) (a : Str) :
+    ChanMatches mp ms bs { sc with bans := sc.bans.filter (fun m => lower m != lower a) } (setAt ch 3 (fun s => sdel s (lower a))) := by
+  refine ⟨hm.users, hm.ops, hm.halfops, hm.voices, hm.topic, hm.modes, hm.modesFull, ?_, ?_⟩
+  · intro x hx
+    simp only [setAt, mem_sdel] at hx
+    obtain ⟨m, hm', rfl⟩ := List.mem_map.mp (hm.bans x hx.2)
+    exact List.mem_map.mpr ⟨m, List.mem_filter.mpr ⟨hm', by simpa using hx.1⟩, rfl⟩
+  · intro hs x hx
+    obtain ⟨m, hm', rfl⟩ := List.mem_map.mp hx
+    obtain ⟨hm1, hm2⟩ := List.mem_filter.mp hm'
+    simp only [setAt, mem_sdel]
+    exact ⟨by simpa using hm2, hm.bansFull hs _ (List.mem_map.mpr ⟨m, hm1, rfl⟩)⟩
 
 theorem mem_tracked_o : 'o' ∈ Gen.trackedModes := by rw [tracked_eq]; decide
 theorem mem_tracked_h : 'h' ∈ Gen.trackedModes := by rw [tracked_eq]; decide
@@ -181,9 +199,9 @@ theorem mem_tracked_q : 'q' ∈ Gen.trackedModes := by rw [tracked_eq]; decide
 theorem mem_tracked_I : 'I' ∈ Gen.trackedModes := by rw [tracked_eq]; decide
 
 /-- one accepted change: the bot's `doMode` step succeeds and keeps the channel matched -/
-theorem applyMode_sim {sc sc' : SChan} {ch : Chan} {c : MChange} (hok : c.ok) (ha : sc.applyMode c = some sc')
-    (hm : ChanMatches sc ch) :
-    ∃ ch', ch.modeStep (tr c) = some ch' ∧ ChanMatches sc' ch' ∧ (∀ x, sc'.has x = sc.has x) := by
+theorem applyMode_sim {mp ms bs : Bool} {sc sc' : SChan} {ch : Chan} {c : MChange} (hok : c.ok) (ha : sc.applyMode c = some sc')
+    (hm : ChanMatches mp ms bs sc ch) :
+    ∃ ch', ch.modeStep (tr c) = some ch' ∧ ChanMatches mp ms bs sc' ch' ∧ (∀ x, sc'.has x = sc.has x) := by
   unfold SChan.applyMode at ha
   unfold tr
   split at ha
@@ -332,9 +350,9 @@ theorem applyMode_sim {sc sc' : SChan} {ch : Chan} {c : MChange} (hok : c.ok) (h
                 · cases ha
           · cases ha
 
-theorem applyModes_sim (cs : List MChange) : ∀ (sc : SChan) (ch : Chan), (∀ c ∈ cs, c.ok) → ChanMatches sc ch →
+theorem applyModes_sim {mp ms bs : Bool} (cs : List MChange) : ∀ (sc : SChan) (ch : Chan), (∀ c ∈ cs, c.ok) → ChanMatches mp ms bs sc ch →
     ∃ ch', runSteps Chan.modeStep ch ((applyModes sc cs).2.map tr) = (ch', false) ∧
-      ChanMatches (applyModes sc cs).1 ch' ∧ (∀ x, (applyModes sc cs).1.has x = sc.has x) := by
+      ChanMatches mp ms bs (applyModes sc cs).1 ch' ∧ (∀ x, (applyModes sc cs).1.has x = sc.has x) := by
   induction cs with
   | nil => intro sc ch _ hm; exact ⟨ch, rfl, hm, fun _ => rfl⟩
   | cons c cs ih =>
@@ -413,7 +431,7 @@ theorem coupled_mode {s : Srv} {b : Bot} (hw : SrvWF s) (hc : Coupled s b) (src 
           obtain ⟨ch', h1, h2, h3⟩ := applyModes_sim cs sc ch hok hrel0.2
           simp only [Bot.stateCmd, cmdOf_MODE, Bot.doMode, (chanOK_of_valid hcw.name).isChan, ↓reduceIte, hchan,
             Chan.doMode, hsep, h1]
-          refine coupled_update' hc0 hw.chansNodup (lower c) rfl rfl rfl hnd' ?_ ?_ ?_ rfl rfl rfl rfl rfl ?_ ?_
+          refine coupled_update' hc0 (lower c) rfl rfl rfl rfl rfl rfl ?_ ?_ ?_ rfl rfl rfl rfl rfl ?_ ?_
           · intro k hk; exact aget_aset_ne _ _ (Ne.symm hk)
           · intro k hk; simp only [Bot.setChan, hcw.key]; exact aget_aset_ne _ _ (Ne.symm hk)
           · simp only [Bot.setChan, hcw.key, aget_aset_self, ChanRel]
@@ -424,11 +442,11 @@ theorem coupled_mode {s : Srv} {b : Bot} (hw : SrvWF s) (hc : Coupled s b) (src 
             rw [hch] at h0; cases h0
             rw [aget_aset_self] at h'; cases h'
             rw [h3] at hb'
-            exact ⟨hb', fun k hk => by rw [h3] at hk; exact hk⟩
+            exact hb'
           · intro sc' h0; rw [hch] at h0; cases h0
       · simp only [hb, Bool.false_eq_true, ↓reduceIte, recvAll_nil]
         have hb' : sc.has s.botKey = false := by simpa [Srv.botIn] using hb
-        refine coupled_update' hc hw.chansNodup (lower c) rfl rfl rfl hnd' ?_ (fun _ _ => rfl) ?_ rfl rfl rfl rfl rfl ?_ ?_
+        refine coupled_update' hc (lower c) rfl rfl rfl rfl rfl rfl ?_ (fun _ _ => rfl) ?_ rfl rfl rfl rfl rfl ?_ ?_
         · intro k hk; exact aget_aset_ne _ _ (Ne.symm hk)
         · simp only [aget_aset_self]
           have hbn : aget b.channels (lower c) = none := by
@@ -442,7 +460,7 @@ theorem coupled_mode {s : Srv} {b : Bot} (hw : SrvWF s) (hc : Coupled s b) (src 
           rw [hch] at h0; cases h0
           rw [aget_aset_self] at h'; cases h'
           rw [applyModes_has] at hb''
-          exact ⟨hb'', fun k hk => by rw [applyModes_has] at hk; exact hk⟩
+          exact hb''
         · intro sc' h0; rw [hch] at h0; cases h0
   · exact hc
 
